@@ -200,6 +200,30 @@ def escape_rules(ctx):
             if ch not in got:
                 p.append("matched character %r has no replacement arm" % ch)
         obs.append(ob("C14.escape/%s" % name, not p, ctx.where(f), "; ".join(p) if p else "class %r, replacements %s" % (cls, got)))
+    # `{{` in text would be read back as the start of a binding: the body escaper has to neutralise it
+    fs = [f for f in tc.fns if f.name == "escape_html_body" and f.body]
+    if fs:
+        f = fs[0]
+        okb = False
+        d = "static text containing `{{` is printed as it is"
+        cls_has = False
+        for n in sir.walk(f.node, into_items=True):
+            if n.get("k") == "call" and (sir.call_path(n) or "").endswith("Regex::new") and n["args"] and n["args"][0].get("k") == "lit" and "{" in n["args"][0]["v"]:
+                cls_has = True
+        if cls_has:
+            okb = any(n.get("k") == "arm" and n["pat"].get("k") == "p_lit" and n["pat"]["e"].get("v") == "{" and "{" not in "".join(x.get("v", "") for x in sir.walk(n["body"]) if x.get("k") == "lit" and x.get("t") == "str") for n in sir.walk(f.body))
+            d = "`{` is in the escaped class and replaced by an entity: %s" % okb
+        for n in sir.walk(f.body):
+            if n.get("k") == "mcall" and n["m"] == "replace" and len(n["args"]) == 2 and sir.strip_ref(n["args"][0]).get("v") == "{{":
+                rep = sir.strip_ref(n["args"][1]).get("v")
+                okb = isinstance(rep, str) and "{{" not in rep and "{" not in rep.replace("&#123;", "").replace("&#x7b;", "").replace("&lbrace;", "").replace("&lcub;", "")
+                # the result of the replacement must be what is returned
+                d = "`{{` is rewritten to `%s` before the text is returned: %s" % (rep, okb)
+                tail = f.body["stmts"][-1]
+                if okb and not any(x is n for x in sir.walk(tail)):
+                    okb = False
+                    d = "`{{` is rewritten, but the rewritten text is not the value returned"
+        obs.append(ob("C14.escape/binding-open", okb, ctx.where(f), d, witness=None if okb else "`p&#123;&#123;q` is printed as `p{{q`, which re-parses with `missing expression end`"))
     # sinks: static text / literal pieces / quoted names go through the escapers
     pv = [f for f in tc.fns if f.base == "Value" and f.name == "stringify_write" and f.body]
     if len(pv) != 1:
